@@ -122,6 +122,13 @@ CLAIMED["C19"] = dict(
            "parameter carries the allowNull-selected unit-interval constraint; the notification fills every probability entry and gives the last one the remaining mass."),
     note=TB + "Not decided: normalisation / inversion / injectivity as values, the binary coding's bit arithmetic, OrderedSimplex ordering, consistency of literal parameters in the dimension constructor.")
 
+CLAIMED["C17"] = dict(
+    engine="E5+E1",
+    technique="static analysis: writer/reader table agreement extracted from the syntax tree (family names, argument keys, parameter names), last-write rule for recorded separators in the tokenisers, alpha-equivalence of the three wildcard-matcher clones",
+    level=("Narrow structural claim about the round-trip clauses: everything the distribution writer can emit (family names, 'key=' arguments) is understood by the reader and the reader's parameter keys exist; "
+           "tokenisers record a separator only once the scan position is final and never store a continued token without its separator; the three copies of the '*' matcher are the same algorithm."),
+    note=TB + "Not decided: numeric round trips, the decimal-number grammar (hand-written automaton), nested tokenising, glob semantics of the shared algorithm, variable-resolution fixed point, delimited-table round trip.")
+
 NOT_APPLICABLE = {
     "C06": ("every clause is a floating-point identity of the JAMA QL/QR iterations (A.V = V.D within k.eps, ordering, trace/determinant); correctness lies in rotation coefficients and "
             "deflation tests that no sound static argument in reach bounds, and no structural necessary condition separable from run-time invariants exists (DESIGN.md section 6)"),
